@@ -8,7 +8,7 @@ RULE = ("each enumerated / random tree is rendered under both presets, both sort
 
 
 def run(tier, rep):
-    rc.render_pools(rep, "C10", tier, ["prefixed", "fields", "fields2", "xmlnsish", "attrcase", "kwsibling", "offsets"], rc.C10_TAGS, opts="all", extra_opts=2,
+    rc.render_pools(rep, "C10", tier, ["prefixed", "fields", "fields2", "xmlnsish", "attrcase", "kwsibling", "offsets", "derivenames", "colons"], rc.C10_TAGS, opts="all", extra_opts=2,
                     limit=250 if tier == "quick" else 4000)
     rc.random_trees(rep, "C10", tier, rc.C10_TAGS, opts="all", extra_opts=3, remove=0, n=150 if tier == "quick" else 1500, ops=25)
     rep.add(distinct_nontrivial=rep.coverage.get("trees_rendered", 0), rule=RULE, exhaustive=False,
